@@ -276,4 +276,295 @@ theorem SD_llLoop (T : LLTables) (o : Opts) (ho : o.maxDepth = none)
       congr 1
       all_goals first | omega | (cases o.trim <;> simp [hpt])
 
+/-! ## the whole run -/
+
+theorem rhs_map_symPT {T : LLTables} (hE : TablesExact T) {i : Nat} {pr : LLProd}
+    (hpr : T.prods[i]? = some pr) : (ruleOf pr).rhs.map symPT = pr.rhsRev.reverse := by
+  simp only [ruleOf]
+  apply map_symPT_stackSyms
+  intro x hx
+  exact hE.noMarker pr (List.mem_of_getElem? hpr) x (by simpa using hx)
+
+theorem firstSig_afterSkips_none {mid : List MTok} (h : sigTypes mid = []) :
+    firstSig (afterSkips mid) = none := by
+  have : sigToks mid = [] := by simpa [sigTypes] using h
+  simp [firstSig, sigToks_afterSkips, this]
+
+/-- **Completeness of the run**, with fuel monotonicity: for a sentence there is a bound `n` (the
+    number of loop iterations of the successful run) such that every fuel above `n` gives `ok`. -/
+theorem llRun_complete (T : LLTables) (hE : TablesExact T) (o : Opts) (ho : o.maxDepth = none)
+    (toks : List MTok) (hw : Lang (gOf T) (sigTypes toks)) :
+    ∃ n, ∀ fuel, n < fuel → (llRun T o fuel toks).res = .ok := by
+  obtain ⟨p, hp, hl, hr⟩ := yield_nt_inv hw
+  obtain ⟨i, pr, hpr, rfl⟩ := mem_gOf_prods hp
+  have hl' : pr.lhs = T.start := hl
+  have hstart : FollowCtx (gOf T) pr.lhs [] := by
+    rw [hl']; exact FollowCtx.start (G := gOf T)
+  have hpred := predict_of_exact hE hpr (inp := toks) hr hstart .nil (by simp)
+  rw [hl'] at hpred
+  obtain ⟨mid, acts, tr, cm, items, hds, hmid⟩ := DS_of_yield T hE hr [] [] toks
+    (fun α B β hss => FollowCtx.step (ruleOf pr) hp α β [] B hss hstart) .nil (by simp)
+  rw [rhs_map_symPT hE hpr] at hds
+  have hlen : items.length = pr.rhsRev.length := by rw [DS_items_length hds]; simp
+  have hsdE := SD.e (T := T) (pt := items.reverse ++ [PTItem.nt pr.lhs]) i pr hpr (by simp [hlen])
+    (SD.done (inp := mid))
+  obtain ⟨n, _, hsd⟩ := DS_SD T hds [.e i] [.nt pr.lhs] 1 mid _ _ _ _ hsdE
+  refine ⟨n, fun fuel hf => ?_⟩
+  have hb : BottomOK (pr.rhsRev.reverse ++ [PT.e i]) := by simp [BottomOK, List.getLast?_append]
+  have hnn : ¬ (Int.ofNat i < 0) := by simp
+  have htn : (Int.ofNat i).toNat = i := rfl
+  unfold llRun
+  simp only [hpred, hnn, htn, pushProduction, hpr, ho, if_false]
+  rw [SD_llLoop T o ho hsd (firstSig_afterSkips_none hmid) _ 0 fuel rfl rfl rfl hb hf]
+  rfl
+
+/-! ## establishing `TablesExact` (1): from the lookahead sets -/
+
+theorem noEoi_gOf {T : LLTables} (h : ∀ pr ∈ T.prods, PT.t 0 ∉ pr.rhsRev) : NoEoi (gOf T) := by
+  intro p hp hm
+  simp only [gOf, List.mem_map] at hp
+  obtain ⟨pr, hpr, rfl⟩ := hp
+  apply h pr hpr
+  simp only [ruleOf, stackSyms, List.mem_filterMap] at hm
+  obtain ⟨s, hs, hsym⟩ := hm
+  cases s <;> simp [ptSym] at hsym
+  subst hsym
+  simpa using hs
+
+/-- `eval` reads at most `k` tokens. -/
+theorem eval_take (d : LaDfa) (stop : Bool) (la : List Nat) : eval d stop (la.take d.k) = eval d stop la := by
+  unfold eval
+  rw [List.take_take, Nat.min_self]
+
+/-- padding a k-tuple `(w·EOI)/k` with EOI gives the EOI-padded k-lookahead of `w` -/
+theorem pad_tuple (w : List Nat) : ∀ (k j : Nat), k ≤ j →
+    ((w ++ [0]).take k ++ List.replicate j 0).take k = (w ++ List.replicate j 0).take k := by
+  induction w with
+  | nil =>
+    intro k j hkj
+    cases k with
+    | zero => simp
+    | succ k =>
+      cases j with
+      | zero => omega
+      | succ j =>
+        simp only [List.nil_append, List.take_succ_cons, List.take_nil, List.cons_append]
+        rw [List.take_replicate, List.take_replicate, Nat.min_eq_left (by omega),
+          Nat.min_eq_left (by omega), List.replicate_succ]
+  | cons a w ih =>
+    intro k j hkj
+    cases k with
+    | zero => simp
+    | succ k => simp only [List.cons_append, List.take_succ_cons]; rw [ih k j (by omega)]
+
+/-- the k-tuple is a prefix (of length ≤ k) of the padded lookahead -/
+theorem tuple_is_prefix (w : List Nat) (k : Nat) :
+    ∃ n, n ≤ k ∧ ((w ++ List.replicate k 0).take k).take n = (w ++ [0]).take k := by
+  refine ⟨((w ++ [0]).take k).length, by simp [List.length_take]; omega, ?_⟩
+  rw [← pad_tuple w k k (Nat.le_refl _), List.take_take]
+  rw [Nat.min_eq_left (by simp [List.length_take]; omega)]
+  rw [List.take_left]
+
+/-- in a k-tuple `(w·EOI)/k` with `w` free of EOI, EOI can only be the last token -/
+theorem tuple_zero_last {w : List Nat} (h0 : 0 ∉ w) {k : Nat} {a b : List Nat}
+    (h : (w ++ [0]).take k = a ++ 0 :: b) : b = [] := by
+  have hp : (w ++ [0]).take k <+: w ++ [0] := List.take_prefix _ _
+  obtain ⟨c, hc⟩ := hp
+  rw [h] at hc
+  have hc' : a ++ (0 :: (b ++ c)) = w ++ [0] := by simpa [List.append_assoc] using hc
+  rcases List.append_eq_append_iff.1 hc' with ⟨a', h1, h2⟩ | ⟨c', h1, h2⟩
+  · -- w = a ++ a', 0 :: (b ++ c) = a' ++ [0]
+    cases a' with
+    | nil =>
+      simp only [List.nil_append, List.cons.injEq, true_and] at h2
+      have : b ++ c = [] := h2
+      exact (List.append_eq_nil_iff.1 this).1
+    | cons x a'' =>
+      simp only [List.cons_append, List.cons.injEq] at h2
+      exfalso; apply h0; rw [h1, ← h2.1]; simp
+  · -- a = w ++ c', [0] = c' ++ 0 :: (b ++ c)
+    cases c' with
+    | nil =>
+      simp only [List.nil_append, List.cons.injEq, true_and] at h2
+      have : b ++ c = [] := h2.symm
+      exact (List.append_eq_nil_iff.1 this).1
+    | cons x c'' =>
+      simp only [List.cons_append, List.cons.injEq] at h2
+      have := h2.2
+      cases c'' <;> simp at this
+
+/-- two k-tuples one of which is a prefix of the other are equal (k-tuples are prefix-free) -/
+theorem tuple_prefix_eq {w w' : List Nat} (h0 : 0 ∉ w) {k : Nat}
+    (hp : (w' ++ [0]).take k <+: (w ++ [0]).take k) : (w' ++ [0]).take k = (w ++ [0]).take k := by
+  obtain ⟨z, hz⟩ := hp
+  by_cases hk : w'.length + 1 ≤ k
+  · have hx : (w' ++ [0]).take k = w' ++ [0] := List.take_of_length_le (by simp; omega)
+    rw [hx] at hz ⊢
+    have : z = [] := tuple_zero_last h0 (a := w') (b := z) (by rw [← hz]; simp)
+    rw [← hz, this]; simp
+  · have hl1 : ((w' ++ [0]).take k).length = k := by simp [List.length_take]; omega
+    have hl2 : ((w ++ [0]).take k).length ≤ k := by simp [List.length_take]; omega
+    have hl := congrArg List.length hz
+    simp only [List.length_append] at hl
+    have : z = [] := List.eq_nil_of_length_eq_zero (by omega)
+    rw [← hz, this]; simp
+
+/-- shape of the strong-LL(k) lookahead strings of C05: k-prefixes of `w·EOI`, `w` free of EOI -/
+theorem LA_shape {G : Grammar} (hno : NoEoi G) {k A : Nat} {α : List Sym} (hα : Sym.t 0 ∉ α)
+    {t : List Nat} (h : LA G k A α t) : ∃ w, 0 ∉ w ∧ t = (w ++ [0]).take k := by
+  obtain ⟨u, f, hu, hf, rfl⟩ := h
+  obtain ⟨γ, v, hc, hv, rfl⟩ := followK_iff_ctx.1 hf
+  refine ⟨u ++ v, ?_, ?_⟩
+  · simp only [List.mem_append, not_or]
+    exact ⟨yield_no_eoi hno hu hα, yield_no_eoi hno hv (followCtx_no_eoi hno hc)⟩
+  · rw [take_append_take_right, List.append_assoc]
+
+theorem LA_of_ctx {G : Grammar} {k A : Nat} {α γ : List Sym} {u v : List Nat}
+    (hu : Yield G α u) (hc : FollowCtx G A γ) (hv : Yield G γ v) :
+    LA G k A α ((u ++ v ++ [0]).take k) :=
+  ⟨u, (v ++ [0]).take k, hu, followK_iff_ctx.2 ⟨γ, v, hc, hv, rfl⟩, by
+    rw [take_append_take_right, List.append_assoc]⟩
+
+/-- The automaton `d` of non-terminal `A`, read as a deterministic automaton (`runRef`, C08),
+    reaches a state predicting `q` on `t` exactly when `q` is (the number of) a production of `A`
+    and `t` is one of its strong-LL(k) lookahead strings `FIRST_k(rhs) ⊙_k FOLLOW_k(A)` (`KS.LA`,
+    C05), `k = d.k`; the transition list is sorted (C07's `compiled_accepts_iff_tuple` delivers
+    exactly this shape). Since `runRef` is a function this includes pairwise disjointness. -/
+def AutomatonExact (T : LLTables) (A : Nat) (d : LaDfa) : Prop :=
+  sortedTrans d.trans = true ∧
+  ∀ (t : List Nat) (q : Int), runRef d 0 d.prod0 t = some q ↔
+    ∃ (j : Nat) (pq : LLProd), q = (j : Int) ∧ T.prods[j]? = some pq ∧ pq.lhs = A ∧
+      LA (gOf T) d.k A (ruleOf pq).rhs t
+
+/-- Set-level premise: well-formed right-hand sides, and every non-terminal that has a production
+    has an automaton accepting exactly its productions' lookahead sets. -/
+structure SetsExact (T : LLTables) : Prop where
+  noMarker : ∀ pr ∈ T.prods, ∀ x ∈ pr.rhsRev, PT.isE x = false
+  noEoi : ∀ pr ∈ T.prods, PT.t 0 ∉ pr.rhsRev
+  auto : ∀ pr ∈ T.prods, ∃ d, T.dfas[pr.lhs]? = some d ∧ AutomatonExact T pr.lhs d
+
+/-- **From the lookahead sets to exact prediction**: if every automaton accepts exactly the
+    strong-LL(k) lookahead strings of the productions of its non-terminal, the runtime `eval`
+    predicts exactly (uses C08: `eval_sound`, `eval_error_only_if_no_prefix`,
+    `eval_assertFail_only_if`). -/
+theorem tablesExact_of_sets (T : LLTables) (h : SetsExact T) : TablesExact T := by
+  have hno : NoEoi (gOf T) := noEoi_gOf h.noEoi
+  refine ⟨h.noMarker, ?_⟩
+  intro p pr hpr
+  have hmem : pr ∈ T.prods := List.mem_of_getElem? hpr
+  obtain ⟨d, hd, hsorted, hacc⟩ := h.auto pr hmem
+  refine ⟨d, hd, ?_⟩
+  intro u γ v hu hc hv
+  have hrule : ∀ pq ∈ T.prods, Sym.t 0 ∉ (ruleOf pq).rhs := fun pq hpq =>
+    hno (ruleOf pq) (by simp only [gOf, List.mem_map]; exact ⟨pq, hpq, rfl⟩)
+  have h0 : 0 ∉ u ++ v := by
+    simp only [List.mem_append, not_or]
+    exact ⟨yield_no_eoi hno hu (hrule pr hmem), yield_no_eoi hno hv (followCtx_no_eoi hno hc)⟩
+  -- the lookahead string of `p` that the input starts with
+  have hLA : LA (gOf T) d.k pr.lhs (ruleOf pr).rhs ((u ++ v ++ [0]).take d.k) := LA_of_ctx hu hc hv
+  have hrun : runRef d 0 d.prod0 ((u ++ v ++ [0]).take d.k) = some (p : Int) :=
+    (hacc _ _).2 ⟨p, pr, rfl, hpr, rfl, hLA⟩
+  obtain ⟨n, hn, hpre⟩ := tuple_is_prefix (u ++ v) d.k
+  generalize hla : (u ++ v ++ List.replicate d.k 0).take d.k = la at hpre
+  cases hev : eval d true la with
+  | ok q =>
+    obtain ⟨m, hm, hrm⟩ := eval_sound d hsorted la q hev
+    obtain ⟨j, pq, hq, hpq, _, hLAq⟩ := (hacc _ _).1 hrm
+    obtain ⟨w', _, hw'⟩ := LA_shape hno (hrule pq (List.mem_of_getElem? hpq)) hLAq
+    -- both accepted strings are prefixes of `la`, hence comparable, hence equal
+    have heq : la.take m = la.take n := by
+      rcases Nat.le_total m n with hmn | hnm
+      · have hp : la.take m <+: la.take n := by
+          rw [show la.take m = (la.take n).take m by rw [List.take_take, Nat.min_eq_left hmn]]
+          exact List.take_prefix _ _
+        rw [hw', hpre] at hp
+        rw [hw', hpre]; exact tuple_prefix_eq h0 hp
+      · have hp : la.take n <+: la.take m := by
+          rw [show la.take n = (la.take m).take n by rw [List.take_take, Nat.min_eq_left hnm]]
+          exact List.take_prefix _ _
+        rw [hw', hpre] at hp
+        rw [hw', hpre]; exact (tuple_prefix_eq (w := w') (by assumption) hp).symm
+    rw [heq, hpre, hrun] at hrm
+    injection hrm with hrm
+    rw [hrm]
+  | predictError =>
+    have := eval_error_only_if_no_prefix d hsorted la hev n hn
+    rw [hpre, hrun] at this; cases this
+  | assertFail =>
+    exfalso
+    obtain ⟨hp0, _⟩ := eval_assertFail_only_if d la hev
+    -- state 0 accepting: the ε-tuple is a lookahead string, so k = 0 and `eval` answers at once
+    have hr0 : runRef d 0 d.prod0 [] = some d.prod0 := by simp [runRef, hp0]
+    obtain ⟨j, pq, _, hpq, _, hLAq⟩ := (hacc _ _).1 hr0
+    obtain ⟨w', _, hw'⟩ := LA_shape hno (hrule pq (List.mem_of_getElem? hpq)) hLAq
+    have hk : d.k = 0 := by
+      have := congrArg List.length hw'
+      simp [List.length_take] at this
+      omega
+    unfold eval at hev
+    simp only [hk, List.take_zero, evalLoop] at hev
+    simp only [evalInit, hp0, if_true] at hev
+    cases hev
+
+/-! ## establishing `TablesExact` (2): a verified executable check -/
+
+/-- reference strong-LL(k) lookahead set of the alternative `α` of `A`:
+    FIRST_k(α) ⊙_k FOLLOW_k(A) by the verified Kleene iterations of `Model/KSets.lean` -/
+def laRef (G : Grammar) (k fuel : Nat) (A : Nat) (α : List Sym) : Option TSet :=
+  match firstK_lfp G k fuel, followK_lfp G k fuel with
+  | some fe, some fo => some (kcatSetRef k (firstSeqRef k (envGet fe) α) (envGet fo A))
+  | _, _ => none
+
+/-- Executable form of `TablesExact`: no markers in right-hand sides, and for every production
+    `p` of `A` the runtime `eval` of `A`'s automaton answers `p` on every (EOI-padded) reference
+    lookahead string of `p`. -/
+def tablesExactB (T : LLTables) (fuel : Nat) : Bool :=
+  (T.prods.all fun pr => pr.rhsRev.all fun x => !PT.isE x) &&
+  (T.prods.zipIdx.all fun (pr, p) =>
+    match T.dfas[pr.lhs]? with
+    | none => false
+    | some d =>
+      match laRef (gOf T) d.k fuel pr.lhs (ruleOf pr).rhs with
+      | none => false
+      | some S => S.all fun t => eval d true (t ++ List.replicate d.k 0) == .ok (p : Int))
+
+theorem mem_laRef {G : Grammar} {k fuel A : Nat} {α γ : List Sym} {S : TSet} {u v : List Nat}
+    (h : laRef G k fuel A α = some S) (hu : Yield G α u) (hc : FollowCtx G A γ) (hv : Yield G γ v) :
+    (u ++ v ++ [0]).take k ∈ S := by
+  unfold laRef at h
+  split at h
+  · rename_i fe fo hfe hfo
+    injection h with h; subst h
+    obtain ⟨_, hfirst⟩ := firstK_lfp_correct hfe
+    have hfollow := followK_lfp_correct hfo
+    rw [mem_kcatSetRef]
+    refine ⟨u.take k, (hfirst α _).2 ⟨u, hu, rfl⟩, (v ++ [0]).take k, (hfollow A _).2 ⟨γ, v, hc, hv, rfl⟩, ?_⟩
+    rw [take_take_append, List.append_assoc]
+  · cases h
+
+theorem tablesExactB_sound (T : LLTables) (fuel : Nat) (h : tablesExactB T fuel = true) : TablesExact T := by
+  simp only [tablesExactB, Bool.and_eq_true, List.all_eq_true, Bool.not_eq_true'] at h
+  obtain ⟨h1, h2⟩ := h
+  refine ⟨fun pr hpr x hx => h1 pr hpr x hx, ?_⟩
+  intro p pr hpr
+  have hmem : (pr, p) ∈ T.prods.zipIdx := by
+    rw [List.mem_zipIdx_iff_getElem?]; simpa using hpr
+  have := h2 (pr, p) hmem
+  simp only at this
+  split at this
+  · cases this
+  · rename_i d hd
+    refine ⟨d, hd, ?_⟩
+    intro u γ v hu hc hv
+    split at this
+    · cases this
+    · rename_i S hS
+      have ht := mem_laRef hS hu hc hv
+      have := (List.all_eq_true.1 this) _ ht
+      rw [beq_iff_eq] at this
+      rw [← eval_take] at this
+      rw [pad_tuple (u ++ v) d.k d.k (Nat.le_refl _), eval_take] at this
+      rw [eval_take]
+      exact this
+
 end ParolModel
